@@ -267,6 +267,13 @@ PM = "phy::verif"
 h("c16_receive_all_vs_decoder_q", "phy_mod.rs", PM, ["C16"], panic_props=["C16", "C05"], timeout_s=1800, mem_gb=12, weight=3, functions=PHF,
   bounds="ANY buffer content of 0..=7 bytes (up to 7 telegrams), one receive_all_telegrams call; unwind 10",
   obligation="handed-over telegrams == iterated decoder (in order, once each), is_last iff nothing buffered behind, result forwarded iff last flagged, undecodable data discarded entirely, incomplete telegram untouched")
+h("c16_receive_all_sd2_le3_q", "phy_mod.rs", PM, ["C16"], panic_props=["C16", "C05"], timeout_s=1800, mem_gb=12, weight=2, functions=PHF,
+  bounds="buffers of 0..=10 bytes of the shape [SC]? + 68 03 03 68 + symbolic rest (the SD2 frame with the non-canonical LE 3, 9 bytes); one receive_all_telegrams call; unwind 13",
+  obligation="as c16_receive_all_vs_decoder_q")
+h("c16_receive_all_sd2_le11_q", "phy_mod.rs", PM, ["C16"], panic_props=["C16", "C05"], tier="thorough", timeout_s=3600, mem_gb=12, weight=3, functions=PHF,
+  bounds="buffers of 0..=18 bytes of the shape [SC]? + 68 0B 0B 68 + symbolic rest (the SD2 frame with the non-canonical LE 11, 17 bytes); unwind 21",
+  obligation="as c16_receive_all_vs_decoder_q")
+# c16_receive_all_sd2_shapes (LE symbolic 3..=11 in one harness, 18 bytes): out of memory after ~1000 s -> not registered; LE 3 and LE 11 are separate harnesses
 h("c16_receive_all_vs_decoder_t", "phy_mod.rs", PM, ["C16"], panic_props=["C16", "C05"], tier="thorough", timeout_s=7200, mem_gb=16, weight=4, functions=PHF,
   bounds="ANY buffer content of 0..=12 bytes (up to 12 telegrams); unwind 16", obligation="as _q")
 h("c16_receive_one_vs_decoder_q", "phy_mod.rs", PM, ["C16"], panic_props=["C16", "C05"], timeout_s=900, functions=PHF,
@@ -312,6 +319,9 @@ h("c02_l1_control_flow", "fdl_token_ring.rs", TRV, ["C02"], panic_props=["C02", 
 h("c02_l1_update_las", "fdl_token_ring.rs", TRV, ["C02"], panic_props=["C02", "C05"], tier="thorough", timeout_s=3600, mem_gb=14, weight=3, functions=["bitvec BitSlice range fill / set as used by update_las_from_token_pass"],
   bounds="ALL 126-bit LAS, ALL SA, DA <= 125; unwind 130", obligation="bitvec range fill + set == model mask arithmetic")
 
+h("c02_l1_update_las_real", "fdl_token_ring.rs", TRV, ["C02"], panic_props=["C02", "C05"], timeout_s=3600, mem_gb=14, weight=3, stubbing=True, functions=["TokenRing::update_las_from_token_pass (real function: bitvec range fill / set + control flow)"],
+  stubs=["TokenRing::update_next_previous -> reference neighbours (the leaf without a verdict)"],
+  bounds="ALL ring views under TokenRing's invariant (126-bit LAS, NS/PS = neighbours), ALL SA, DA <= 125; unwind 130", obligation="real update_las_from_token_pass == model: LAS and NS/PS (neighbours in the new list)")
 # ---- C07: reference master refined by the real peripheral; joint system with the reference slave ---------
 h("c07_refines_transmit", "dp_peripheral.rs", PV, ["C07"], panic_props=["C07", "C05"], timeout_s=1200, mem_gb=10, weight=2, functions=PERF,
   bounds="ONE transmit_telegram from ANY peripheral state under Inv_DP (user prm and config present, 1 byte each), max_retry_limit 1..15; unwind 14",
@@ -354,8 +364,8 @@ PROPERTIES = {
     "C09": {
         "claim": "Bounded: for every header (DA/SA 0..127, any SAP options, any function code) and every payload within the stated length/content bounds the real encoder's bytes equal an independent reference frame encoder, the reported lengths agree, and the real decoder returns the identical telegram consuming exactly the frame. Function codes: exhaustive over all bytes and all values.",
         "assumptions": ["addresses 0..=127 (bit 8 of the address octets is the extension bit)",
-                        "payload content fully symbolic only up to 8 (quick) / 64 (thorough) bytes; boundary layouts (246 no SAPs, 245 with one SAP, 244 with both, 128 with both, 7/8/9 around SD3) individually with concrete payload content; a single harness over all lengths at once gave no verdict within 1 h and is not registered"],
-        "outside": ["content-dependent behaviour for payloads > 64 bytes (content only flows through a copy and the additive checksum)",
+                        "payload content fully symbolic with symbolic length up to 8 (quick) / 64 (thorough) bytes, at exactly 100 bytes with DSAP (quick) and at the frame limit (246 bytes without SAPs, 244 with both; thorough, ~10 min each); boundary layouts (246 no SAPs, 245 with one SAP, 244 with both, 128 with both, 7/8/9 around SD3) individually with concrete payload content; a single harness over all lengths at once gave no verdict within 1 h and is not registered"],
+        "outside": ["content-dependent behaviour at payload lengths other than the ones listed above 64 bytes (content only flows through a copy and the additive checksum)",
                     "callers passing pdu_len beyond the frame limit (serialize asserts LE <= 249)"],
     },
     "C03": {
@@ -367,9 +377,9 @@ PROPERTIES = {
     },
     "C04": {
         "claim": "Bounded, one-step: from every peripheral state under Inv_DP, a Data_Exchange request carries exactly the output image (zeros in Clear); the input image changes only through a data reply of exactly the configured length without error status in a data-exchange round, and then equals the payload byte for byte; DataExchanged is reported iff such an update happened (or SC for an input-less peripheral); no reply or transmission writes the output image; no panic for any FDL-admissible reply.",
-        "assumptions": ["replies restricted to the FDL admission predicate (C15)", "image lengths 0..=4 (quick) / 0..=32 (thorough) with symbolic content; lengths up to 244 are not explored",
+        "assumptions": ["replies restricted to the FDL admission predicate (C15)", "image lengths 0..=4 (quick) / 0..=32 (thorough) with symbolic length and content in the step harnesses; additionally the largest image (244 bytes, quick) and 129 bytes (thorough) with fully symbolic content for a peripheral in the data exchange states (c04_dx_large_*)",
                         "whether OK-status replies update the image is left open by the property; the code accepts them (allowed by the oracle), RDL/RDH replies are allowed either way"],
-        "outside": ["images longer than 32 bytes"],
+        "outside": ["image lengths between 33 and 243 bytes other than 129 (the copy loops and the length comparison are the same code; stated, not decided)"],
     },
     "C07": {
         "claim": "Compositional, bounded: (1) refinement - one real transmit_telegram / receive_reply from EVERY peripheral state under Inv_DP and every FDL-admissible reply changes the peripheral's control state (bring-up state, retry counter, frame count bit, pending and outstanding diagnostics) and raises events exactly like RefMaster, a complete deterministic reference of the master-side slave handler; (2) joint system - from a fresh RefMaster and a RefSlave (reference DP-V0 slave: Wait_Prm/Wait_Cfg/Data_Exch with frame-count-bit retry detection) in any stage, EVERY history of 10 (quick) / 22-26 (thorough) events over {fault-free turn, transient fault report, diagnostics-signalling reply, request lost, reply lost, power cycle, user diagnostics request} followed by 12-14 fault-free turns ends with master and slave in cyclic data exchange, where they stay; Configured precedes DataExchanged after Online; a silent peripheral is reported Offline exactly once after exactly 1+limit transmissions and then only probed.",
@@ -440,11 +450,11 @@ PROPERTIES = {
         "outside": ["4 peripherals; Vec-backed storage; token-hold interruptions are covered only in so far as every call is checked from an arbitrary cycle index"],
     },
     "C18": {
-        "claim": "Bounded, one-step from ANY state: for every station set (all 2^128 bit patterns), cursor and flag, one real callback of the live list / DP scanner probes exactly the cursor address (never above 125) or advances the cursor by exactly one modulo 126; a reply sets exactly that address's bit and raises Discovered/Found iff it was clear; a time-out clears exactly that bit and raises Lost iff it was set; no other bit ever changes; DP scanner descriptions carry the ident number and master address of the reply. Per-address alternation of events and 'list == responders after one full sweep of a stable population' follow by induction over the 126-step sweep (paper step).",
+        "claim": "Bounded, one-step from ANY state: for every station set (all 2^128 bit patterns), cursor and flag, one real callback of the live list / DP scanner probes exactly the cursor address (never above 125) or advances the cursor by exactly one modulo 126; a reply sets exactly that address's bit and raises Discovered/Found iff it was clear; a time-out clears exactly that bit and raises Lost iff it was set; no other bit ever changes; DP scanner descriptions carry the ident number and master address of the reply. A pending address is never skipped (a turn may be declined only when the station offers nothing but a high-priority cycle, and then the cursor stays). Bounded histories: from ANY state, 4 (quick) / 12 resp. 10 (thorough) consecutive address visits against ANY stable population with symbolic reply losses and late-token turns visit consecutive addresses in sweep order, raise Discovered/Found and Lost exactly as a ghost list says and agree with the population after every loss-free visit. 'List == responders after one full sweep' follows by induction over the 126-step sweep (paper step).",
         "assumptions": ["events are collected after every poll (the property's premise): pending event empty before each callback",
                         "replies restricted to the FDL admission predicate; an SC answer to a status request sets the bit without an event (outside the property's population model)",
                         "the callback's address is the cursor address (the FDL layer delivers replies/time-outs for the request last sent, C15)"],
-        "outside": ["the 252-callback sweep as a whole; lost replies appear as time-outs (one-step)"],
+        "outside": ["the 252-callback sweep as a whole (bounded histories of 4 (quick) / 12 resp. 10 (thorough) consecutive address visits from any state are decided: c18_*_history_*)"],
     },
     "C20": {
         "claim": "Bounded/complete for the kernel: for ALL data types, ALL i64 values and ALL 4-byte windows write_value_to_slice accepts exactly the type's value range, writes big-endian two's complement into exactly the parameter's bits and leaves the window unchanged on rejection; declared constraints: is_valid/assert_valid accept exactly the declared range resp. the listed values (0..4 values, any order) for ALL i64 values; builder (minimal layout: one Unsigned8 parameter over two constant bytes, symbolic range constraint or 3-value enumeration, default, text table value): PrmBuilder::new, set_prm and set_prm_from_text produce exactly the reference overlay, and every error (declared range, data type, unknown name, unknown text) is a value and leaves the block unchanged.",
